@@ -173,12 +173,30 @@ func (h *NFSProcedureHandler) handleFsinfo(body io.Reader, reply *RPCReply, auth
 		return nfsErrorWithPostOp(reply, NFSERR_IO), nil
 	}
 
-	binary.Write(&buf, binary.BigEndian, uint32(1048576))       // rtmax
-	binary.Write(&buf, binary.BigEndian, uint32(65536))         // rtpref
-	binary.Write(&buf, binary.BigEndian, uint32(4096))          // rtmult
-	binary.Write(&buf, binary.BigEndian, uint32(1048576))       // wtmax
-	binary.Write(&buf, binary.BigEndian, uint32(65536))         // wtpref
-	binary.Write(&buf, binary.BigEndian, uint32(4096))          // wtmult
+	// Advertise only what READ/WRITE (TransferSize) and the record reader
+	// (DefaultMaxRecordSize, which also has to hold the call header and the
+	// other arguments) actually accept.
+	xferMax := uint32(1048576)
+	if ts := h.server.handler.tuning.Load().TransferSize; ts > 0 && ts < int(xferMax) {
+		xferMax = uint32(ts)
+	}
+	if limit := uint32(DefaultMaxRecordSize - 4096); xferMax > limit {
+		xferMax = limit
+	}
+	xferPref := uint32(65536)
+	if xferPref > xferMax {
+		xferPref = xferMax
+	}
+	xferMult := uint32(4096)
+	if xferMult > xferMax {
+		xferMult = 1
+	}
+	binary.Write(&buf, binary.BigEndian, xferMax)               // rtmax
+	binary.Write(&buf, binary.BigEndian, xferPref)              // rtpref
+	binary.Write(&buf, binary.BigEndian, xferMult)              // rtmult
+	binary.Write(&buf, binary.BigEndian, xferMax)               // wtmax
+	binary.Write(&buf, binary.BigEndian, xferPref)              // wtpref
+	binary.Write(&buf, binary.BigEndian, xferMult)              // wtmult
 	binary.Write(&buf, binary.BigEndian, uint32(8192))          // dtpref (C1: uint32 not uint64)
 	binary.Write(&buf, binary.BigEndian, uint64(1099511627776)) // maxfilesize
 	binary.Write(&buf, binary.BigEndian, uint32(0))             // time_delta.seconds
